@@ -19,6 +19,11 @@ def capacity_jobs(tier, seed, prop="C10"):
         j = ch(prop, F, "h_filemeta_capacity_rest", t, FUN, shape=dict(fmd=sh), env=dict(VERIF_FMD_SHAPE=sh))
         j["name"] += "[%s]" % sh
         jobs.append(j)
+    # (a footer without row groups is inside the recorded finding T4-filemeta: its buffer is the key-value text alone)
+    for sh in ["1,1,1", "2,2,2", "1,2,2"]:
+        j = ch(prop, F, "h_filemeta_capacity_kv", t, FUN, shape=dict(fmd=sh), env=dict(VERIF_FMD_SHAPE=sh))
+        j["name"] += "[%s]" % sh
+        jobs.append(j)
     for j in jobs:
         j["payload"]["cls_prefix"] = "C10"
     jobs.append(dict(name="%s-lemma-buffer-premise" % prop, kind="pyfunc", timeout=300,
